@@ -1,0 +1,76 @@
+//go:build verif
+
+// Contracts for package jmespath, read by /verif/bin/govc (comment-only file).
+
+package jmespath
+
+// ---------------------------------------------------------------------------
+// error contract (C08): every public error type answers errors.Is for exactly one exported
+// category; the two mappers send each internal error to the category the specification names.
+
+//@ func evaluationFailedError.Is
+//@   tags C08
+//@   ensures result == (target == global("jmespath.ErrEvaluationFailed"))
+//@ func infinityError.Is
+//@   tags C08
+//@   ensures result == (target == global("jmespath.ErrNotANumber"))
+//@ func invalidFunctionCallError.Is
+//@   tags C08
+//@   ensures result == (target == global("jmespath.ErrInvalidArity"))
+//@ func invalidExpressionError.Is
+//@   tags C08
+//@   ensures result == (target == global("jmespath.ErrSyntax"))
+//@ func invalidSliceStepError.Is
+//@   tags C08
+//@   ensures result == (target == global("jmespath.ErrInvalidValue"))
+//@ func invalidTypeError.Is
+//@   tags C08
+//@   ensures result == (target == global("jmespath.ErrInvalidType"))
+//@ func invalidValueError.Is
+//@   tags C08
+//@   ensures result == (target == global("jmespath.ErrInvalidValue"))
+//@ func notANumberError.Is
+//@   tags C08
+//@   ensures result == (target == global("jmespath.ErrNotANumber"))
+//@ func undefinedVariableError.Is
+//@   tags C08
+//@   ensures result == (target == global("jmespath.ErrUndefinedVariable"))
+//@ func unknownFunctionError.Is
+//@   tags C08
+//@   ensures result == (target == global("jmespath.ErrUnknownFunction"))
+
+// category of a public error value: 1 evaluation-failed 2 arity 3 type 4 value 5 not-a-number 6 syntax 7 undefined-variable 8 unknown-function
+//@ ghost pubCat(e Iface) Int = ite(isType(e, "*github.com/woodsbury/jmespath.evaluationFailedError"), 1, ite(isType(e, "*github.com/woodsbury/jmespath.invalidFunctionCallError"), 2, ite(isType(e, "*github.com/woodsbury/jmespath.invalidTypeError"), 3, ite(isType(e, "*github.com/woodsbury/jmespath.invalidValueError") || isType(e, "*github.com/woodsbury/jmespath.invalidSliceStepError"), 4, ite(isType(e, "*github.com/woodsbury/jmespath.infinityError") || isType(e, "*github.com/woodsbury/jmespath.notANumberError"), 5, ite(isType(e, "*github.com/woodsbury/jmespath.invalidExpressionError"), 6, ite(isType(e, "*github.com/woodsbury/jmespath.undefinedVariableError"), 7, ite(isType(e, "*github.com/woodsbury/jmespath.unknownFunctionError"), 8, 0))))))))
+
+// category of an internal evaluation error as the specification names it
+//@ ghost evalCat(e Iface) Int = ite(isType(e, "*github.com/woodsbury/jmespath/internal/evaluator.InvalidTypeError") || e == global("evaluator.ErrInvalidType"), 3, ite(e == global("evaluator.ErrInvalidValue") || isType(e, "*github.com/woodsbury/jmespath/internal/evaluator.fromItemsKeyTypeError") || isType(e, "*github.com/woodsbury/jmespath/internal/evaluator.fromItemsLengthError") || isType(e, "*github.com/woodsbury/jmespath/internal/evaluator.integerConversionError") || isType(e, "*github.com/woodsbury/jmespath/internal/evaluator.negativeIntegerError") || isType(e, "*github.com/woodsbury/jmespath/internal/evaluator.padLengthError"), 4, ite(e == global("evaluator.ErrInfinity") || e == global("evaluator.ErrNotANumber"), 5, ite(isType(e, "*github.com/woodsbury/jmespath/internal/evaluator.UndefinedVariableError"), 7, 1))))
+
+//@ func evaluateError
+//@   tags C08 C03
+//@   requires err != nil
+//@   ensures nonnil: result != nil
+//@   ensures category: repoErr(err) ==> pubCat(result) == evalCat(err)
+//@   ensures never.static: pubCat(result) != 2 && pubCat(result) != 6 && pubCat(result) != 8 && pubCat(result) != 0
+
+//@ ghost parseCat(e Iface) Int = ite(isType(e, "*github.com/woodsbury/jmespath/internal/parser.InvalidFunctionArgumentError"), 3, ite(isType(e, "*github.com/woodsbury/jmespath/internal/parser.InvalidFunctionCallError"), 2, ite(isType(e, "*github.com/woodsbury/jmespath/internal/parser.InvalidSliceStepError"), 4, ite(isType(e, "*github.com/woodsbury/jmespath/internal/parser.UnknownFunctionError"), 8, 6))))
+
+//@ func parseError
+//@   tags C08 C04 C03
+//@   requires err != nil
+//@   ensures nonnil: result != nil
+//@   ensures category: pubCat(result) == parseCat(err)
+
+//@ func Search
+//@   tags C08 C06
+//@   ensures failure: result1 != nil ==> result0 == nil
+//@   ensures public: result1 != nil ==> pubCat(result1) != 0
+
+//@ func Expression.Search
+//@   tags C08 C06
+//@   ensures failure: result1 != nil ==> result0 == nil
+//@   ensures runtime.only: result1 != nil ==> pubCat(result1) != 0 && pubCat(result1) != 2 && pubCat(result1) != 6 && pubCat(result1) != 8
+
+//@ func Compile
+//@   tags C08 C04 C06
+//@   ensures failure: result1 != nil ==> result0 == nil && pubCat(result1) != 0
+//@   ensures success: result1 == nil ==> result0 != nil && fresh(result0)
